@@ -304,6 +304,7 @@ package stack
 //@   at-return [bufferedInSuffix C02 C07] opts != nil && s != nil && s.state != looking ==> len(result1) >= r.w - r.r
 //@   ensures [fetchedGrows C02] fetched(in) >= old(fetched(in)) && fetched(in) <= N(in) && wlen(prefix) >= 0
 //@   ensures [snapshotHasGoroutine C03] result0 != nil ==> len(result0.Goroutines) >= 1 && fresh(result0)
+//@   ensures [snapshotCarriesTheLocalRoots C18] result0 != nil ==> result0.LocalGOROOT == opts.LocalGOROOT && sameslice(result0.LocalGOPATHs, opts.LocalGOPATHs)
 //@   ensures [snapshotGoroutinesNonNil C03] result0 != nil ==> forall i :: 0 <= i && i < len(result0.Goroutines) ==> result0.Goroutines[i] != nil
 //@   ensures [scanProgress C03] result2 == nil ==> old(fetched(in)) + (wlen(prefix) - old(wlen(prefix))) + len(result1) < fetched(in)
 //@   at-return [readerErrorWins C10] opts != nil && s != nil && rdErr != nil && rdErr != io.EOF ==> result2 == rdErr
@@ -1145,9 +1146,13 @@ package stack
 //@ func (*Signature).SleepString
 //@   requires s != nil
 //@   modifies nothing
+//@   ensures [noSleepNoText C16] s.SleepMax == 0 ==> result == ""
+//@   assert after-call fmt.Sprintf#1: [sleepRangeShowsBothBounds C16] s.SleepMax != 0 && s.SleepMin != s.SleepMax && arg0 == "%d~%d minutes" && len(arg1) == 2 && intof(arg1[0]) == s.SleepMin && intof(arg1[1]) == s.SleepMax
+//@   assert after-call fmt.Sprintf#2: [singleSleepValue C16] s.SleepMax != 0 && s.SleepMin == s.SleepMax && arg0 == "%d minutes" && len(arg1) == 1 && intof(arg1[0]) == s.SleepMax
 //@ func (*Snapshot).IsRace
 //@   requires s != nil && len(s.Goroutines) >= 1 && s.Goroutines[0] != nil
 //@   modifies nothing
+//@   ensures [raceIffFirstGoroutineHasARaceAddress C08 C16] result <==> s.Goroutines[0].RaceAddr != 0
 //@ func (*parsedFile).getFuncAST
 //@   requires p != nil
 //@   modifies nothing
